@@ -52,6 +52,13 @@ def known_match(known: dict, prop: str, item: dict[str, Any]) -> dict | None:
                     ) + ' ' + str(item.get('observed', ''))
                 ):
             continue
+        if k.get('witness_any') and not any(
+            w in (str(item.get('scenario')) + ' ' + json.dumps(
+                item.get('args'), default=str,
+            ) + ' ' + str(item.get('observed', '')))
+            for w in k['witness_any']
+        ):
+            continue
         return k
     return None
 
